@@ -16,7 +16,21 @@ import os, re
 import vcommon
 from vcommon import VERIF, REPO
 
-PROPS = ["Bee2V/C06/Props.lean"]
+# files whose theorems are the obligations (all audited with `#print axioms`)
+PROPS = ["Bee2V/C06/Props.lean", "Bee2V/C06/PropsGen.lean", "Bee2V/C06/PropsUn.lean", "Bee2V/C06/PropsAddJ.lean",
+         "Bee2V/C06/PropsAddAJ.lean", "Bee2V/C06/PropsTpl.lean", "Bee2V/C06/PropsAA.lean", "Bee2V/C06/PropsSWU.lean",
+         "Bee2V/C06/PropsMul.lean", "Bee2V/C06/PropsSim.lean", "Bee2V/C06/PropsTop.lean"]
+TARGETS = [r[:-5].replace("/", ".") for r in PROPS]
+
+
+def regen(ctx):
+    """tie (a): the programs of ecp.c, the function table of ecpCreateJ and ecNAFWidth are re-extracted from the
+    current source (clang AST, fail-closed); PropsGen.lean proves them equal to the model the theorems are about"""
+    import importlib
+    import x_c06_ecp
+    importlib.reload(x_c06_ecp)
+    ctx.regen("Bee2V/Gen/C06Ecp.lean", x_c06_ecp.generate())
+
 
 # ----------------------------------------------------------------------------- reference group law (oracle)
 
@@ -241,6 +255,8 @@ def expect(line):
     """group-law value of an op line (None if the oracle does not cover it)"""
     w = line.split()
     op = w[0]
+    if op == "naf":
+        return None
     E = curve_of(w)
     binary = isinstance(E, E2)
     r = w[4:]
@@ -263,10 +279,12 @@ def expect(line):
         out += ([show(s)] * 3 + [show(d)] * 3) if Q else ["-"] * 6
         out += [show(P2)] * 2 + (["-"] * 2 if binary else [show(P3)] * 2) + [show(nP)] * 2 + [show(P)] * 2
         out += ([show(P2)] * 2 + [show(P)] * 2 + [show(nP)] * 2) if P else ["-"] * 6
-        out += [show(s)] * 3 if P and Q else ["-"] * 3
-        out += [show(P2)] if P else ["-"]
-        out += [show(d)] * 3 if P and Q else ["-"] * 3
-        out += ["O"] if P else ["-"]
+        aa = [show(s)] * 3 if P and Q else ["-"] * 3
+        sa = [show(d)] * 3 if P and Q else ["-"] * 3
+        if binary:      # ec2AddAA/ec2SubAA: a and c must be disjoint
+            aa[1] = sa[1] = "-"
+        out += aa + ([show(P2)] if P and not binary else ["-"])
+        out += sa + (["O"] if P and not binary else ["-"])
         return ";".join(out)
     if op == "ison":
         return "1" if E.on(int(r[0], 16), int(r[1], 16)) else "0"
@@ -528,6 +546,16 @@ def gen_small_misc(ctx, quick):
     return ops
 
 
+def gen_naf(ctx, quick):
+    """wwNAF itself (digit count and packed string), every width 2..7, boundary and random scalars"""
+    rng = ctx.rng
+    ds = list(range(1, 70)) + [(1 << k) + e for k in (7, 8, 31, 32, 33, 63, 64, 65, 127, 128, 255, 256) for e in (-1, 0, 1)]
+    ds += [int("5" * k, 16) for k in (3, 16, 33)] + [int("a" * k, 16) for k in (3, 16, 33)] + [int("f" * k, 16) for k in (2, 16, 17, 64)]
+    ds += [rng.getrandbits(rng.choice([8, 64, 65, 130, 256, 512, 576])) | 1 for _ in range(60 if quick else 1500)]
+    ds += [rng.getrandbits(200) << rng.randrange(70) for _ in range(20 if quick else 300)]
+    return ["naf 7 1 1 %x %x" % (d, w) for d in ds if d > 0 for w in (2, 3, 4, 5, 6, 7)]
+
+
 def gen_two_word(ctx, quick):
     rng = ctx.rng
     ops = []
@@ -647,41 +675,72 @@ def std_params(ctx, exe):
 
 # ----------------------------------------------------------------------------- run
 
+def naf_valid(op, out):
+    """the property of wwNAF on the implementation alone: the packed string decodes (as ecMulA reads it) to d"""
+    t = op.split()
+    d, w = int(t[4], 16), int(t[5], 16)
+    try:
+        size, naf = (int(x, 16) for x in out.split())
+    except ValueError:
+        return False
+    v, i = 0, 0
+    for _ in range(size):
+        c = (naf >> i) & ((1 << w) - 1)
+        if c & 1:
+            e = c if c < (1 << (w - 1)) else -(c - (1 << (w - 1)))
+            i += w
+        else:
+            e = 0
+            i += 1
+        v = 2 * v + e
+    return v == d and (naf >> i) == 0
+
+
 def kind_of(line):
     return line.split()[0]
 
 
 def run(ctx):
     quick = ctx.tier == "quick"
-    proof_ok, log = ctx.prove(["Bee2V.C06.Props"], PROPS)
+    terr = None
+    try:
+        regen(ctx)
+    except Exception as e:
+        terr = "%s: %s" % (type(e).__name__, e)
+    proof_ok, log = (False, "translator: " + terr) if terr else ctx.prove(TARGETS, PROPS)
     exe = ctx.cc("harness/c06.c", "asan")
     std = std_params(ctx, exe)
     ctx.cov["standard_curves"] = sorted(std)
     if quick:
         std = {k: v for k, v in std.items() if k in ("bign256", "bign384", "bign512", "bign96", "gost512B")}
     small, stats = gen_small(ctx, quick)
-    ops = CORPUS + small + gen_small_mul(ctx, quick) + gen_small_misc(ctx, quick) + gen_two_word(ctx, quick) + gen_big(ctx, std, quick)
+    ops = CORPUS + small + gen_naf(ctx, quick) + gen_small_mul(ctx, quick) + gen_small_misc(ctx, quick) + gen_two_word(ctx, quick) + gen_big(ctx, std, quick)
     mism = []
     if os.path.exists(ctx.driver()):
         mism, c_out, l_out = ctx.diff_run(exe, ops, "ec-differential")
         # 32-bit-word build: scalar routines with lengths in 32-bit words (window width 3), and a sample of the
         # word-size independent lines
         exe32 = ctx.cc("harness/c06.c", "w32")
-        ops32 = gen_w32(ctx, std, quick) + [o for o in ops if kind_of(o) in ("pair", "swu", "ison")][:: (40 if quick else 10)]
+        ops32 = gen_w32(ctx, std, quick) + [o for o in ops if kind_of(o) in ("pair", "swu", "ison", "naf")][:: (40 if quick else 10)]
         m32, _, _ = ctx.diff_run(exe32, ops32, "ec-differential-w32")
         mism += m32
+        # ASSERT-enabled build: preconditions / internal assertions (e.g. the leading NAF digit in ecMulA) on a sample
+        exed = ctx.cc("harness/c06.c", "asan-dbg")
+        md, _, _ = ctx.diff_run(exed, CORPUS + ops[len(CORPUS):: (17 if quick else 7)], "ec-differential-assert-build")
+        mism += md
         ops = ops + ops32
     # ec2.c: implementation vs Python reference (no Lean model yet)
     ops2 = gen_ec2(ctx, quick)
-    out2, err2, rc2 = ctx.run_lines(exe, ops2)
-    ctx.cov["ops_ec2_reference_only"] = len(ops2)
     bad2 = []
-    for i, o in enumerate(ops2):
-        got = out2[i] if i < len(out2) else "CRASH(rc=%d): %s" % (rc2, err2.strip().split("\n")[-1][:200])
-        if got != expect(o):
-            bad2.append((o, got, expect(o)))
-            if i >= len(out2):
-                break
+    for cfg2 in ("asan", "asan-dbg"):
+        out2, err2, rc2 = ctx.run_lines(ctx.cc("harness/c06.c", cfg2), ops2)
+        for i, o in enumerate(ops2):
+            got = out2[i] if i < len(out2) else "CRASH(rc=%d): %s" % (rc2, err2.strip().split("\n")[-1][:200])
+            if got != expect(o):
+                bad2.append((o, got, expect(o)))
+                if i >= len(out2):
+                    break
+    ctx.cov["ops_ec2_reference_only"] = 2 * len(ops2)
     ctx.samples.append(ops2[0])
     hist = {}
     for o in ops:
@@ -704,6 +763,9 @@ def run(ctx):
                 e = expect(op)
             except Exception:
                 e = None
+            if kind_of(op) == "naf" and not naf_valid(op, c):
+                found = (op, c, l, "a width-w NAF whose digits sum to the scalar")
+                break
             if e is not None and e != c:
                 found = (op, c, l, e)
                 break
@@ -718,7 +780,7 @@ def run(ctx):
                           "# property C06: model and implementation disagree (%d lines), the group-law reference agrees with the implementation\n%s\n# impl  %s\n# model %s\n"
                           % (len(mism), op, c, l), False, "correspondence broken on %d lines, first: %s impl=%s model=%s" % (len(mism), op, c, l))
     elif not proof_ok:
-        errs = "\n".join(l for l in log.split("\n") if "error" in l)[:3000]
+        errs = "\n".join(l for l in log.split("\n") if "error" in l or "translator" in l)[:3000]
         ctx.violation("proof", "# property C06: theorems of Bee2V/C06/Props.lean no longer check\n%s\n" % "\n".join("# " + x for x in errs.split("\n")),
                       False, "theorems no longer check: " + "; ".join(ctx.cov.get("lake_errors", []))[:400] + log[-600:])
     return ctx.finish(
